@@ -87,6 +87,8 @@ type Fin struct {
 	OCTarget *int64 `json:"oc_target,omitempty"`
 	Inline []Cond   `json:"inline,omitempty"`
 	Vals   []Rec    `json:"vals,omitempty"` // save_slice: Save(&[]Acct{...})
+	Omits  []string `json:"omits,omitempty"` // save_omit: Omit(cols...).Save(&v), columns in either spelling
+	OmitSpell string `json:"omit_spell,omitempty"` // db | field
 }
 type Input struct {
 	Tbl      []Rec `json:"tbl"`
@@ -304,6 +306,16 @@ func run(e *env, in Input) Obs {
 	case "save":
 		dest = toAcct(*in.Fin.Val)
 		res = tx.Save(&dest)
+	case "save_omit":
+		dest = toAcct(*in.Fin.Val)
+		var cols []string
+		for _, c := range in.Fin.Omits {
+			if in.Fin.OmitSpell == "field" {
+				c = fieldName[c]
+			}
+			cols = append(cols, c)
+		}
+		res = tx.Omit(cols...).Save(&dest)
 	case "save_slice":
 		sl := make([]Acct, len(in.Fin.Vals))
 		for i, v := range in.Fin.Vals {
@@ -439,6 +451,8 @@ func gFin(f Fin) string {
 		return lib.App("FSave", gRec(*f.Val))
 	case "save_slice":
 		return lib.App("FSaveSlice", lib.ListOf(f.Vals, gRec))
+	case "save_omit":
+		return lib.App("FSaveOmit", lib.ListOf(f.Omits, func(c string) string { return gColName[c] }), gRec(*f.Val))
 	case "create_oc":
 		rule := "RNothing"
 		switch f.Rule {
@@ -746,6 +760,29 @@ func genStep(r *lib.Rng, state []Rec, now int64, edge, known bool) Input {
 			vals[clash].ID = 0
 		}
 		in.Fin = Fin{Kind: "save_slice", Vals: vals}
+	case k < 17 && !known:
+		// Omit(cols...).Save(&v): stored, soft-deleted, missing and zero keys; zero-valued fields
+		v := genValue(r, state, edge)
+		if r.Chance(1, 3) {
+			switch r.Intn(3) {
+			case 0:
+				v.Name = ""
+			case 1:
+				v.Age = 0
+			default:
+				v.Email = ""
+			}
+		}
+		f := Fin{Kind: "save_omit", Val: &v, OmitSpell: lib.Pick(r, []string{"db", "field"})}
+		for _, c := range []string{"name", "age", "email", "updated_at"} {
+			if r.Chance(1, 3) {
+				f.Omits = append(f.Omits, c)
+			}
+		}
+		if len(f.Omits) == 0 {
+			f.Omits = []string{lib.Pick(r, []string{"name", "age", "email"})}
+		}
+		in.Fin = f
 	case k < 25:
 		v := genValue(r, state, edge)
 		in.Fin = Fin{Kind: "save", Val: &v}
@@ -869,6 +906,9 @@ func shape(in Input, o Obs) string {
 	if in.Fin.Kind == "save_slice" {
 		sb.WriteString(":" + slicePattern(in))
 	}
+	if in.Fin.Kind == "save_omit" {
+		sb.WriteString(":" + strings.Join(in.Fin.Omits, ",") + in.Fin.OmitSpell)
+	}
 	if in.Fin.Kind == "create_oc" {
 		sb.WriteString(":" + in.Fin.Rule)
 		if in.Fin.OCWhere != nil {
@@ -920,7 +960,7 @@ func shape(in Input, o Obs) string {
 
 func nontrivial(in Input, o Obs) bool {
 	switch in.Fin.Kind {
-	case "save", "create_oc":
+	case "save", "create_oc", "save_omit":
 		return in.Fin.Val.ID != 0 && findRow(in.Tbl, in.Fin.Val.ID) != nil
 	case "save_slice":
 		p := slicePattern(in)
@@ -1081,6 +1121,6 @@ func main() {
 			}
 		}
 	}
-	out.Extra["rule"] = "a case is ONE step on a table of 0..n rows over keys 1..4 (+ rowid-assigned keys): Save(v) | Save(&slice of 2-4 values mixing stored keys, fresh keys and zero keys in any order; the slice handed back is compared element by element and is saved again by a later step; RETURNING dialect) | Create+OnConflict{DoNothing, DoUpdates(subset of name,age,email,updated_at,deleted_at), UpdateAll}(v), optionally conditional (OnConflict.Where = stored age < k on DoUpdates/UpdateAll, OnConflict.TargetWhere = age < k; colliding rows on both sides of the condition) | FirstOrInit | FirstOrCreate, preceded by a chain of Where(struct|map|raw 'age > ?') / Attrs / Assign (struct by value or by pointer, map in column or field spelling, key-value; 1-2 arguments) in any order with Session(&Session{}) / WithContext inserted at chain positions; steps are chained into histories of 6..12 steps on the evolving table with soft/hard deletions in between; v is fresh (key 0 or 1..4) or a previously stored row edited. Session/WithContext are inserted at EVERY chain position, also after Attrs/Assign (stream session-after-attrs forces that shape, the fixed finding clone-drops-attrs). Domain: at most one Attrs and one Assign per chain, key-value form alone, two-argument forms in column spelling, Attrs/Assign keys among name/age/email, type-correct values, one inline condition. distinct = distinct (finisher, rule+cols, collision kind, chain form, inline form, RowsAffected, writes, error, table size); non-trivial = the value's key collides with a stored row (Save/upsert) or the chain has a condition and a non-empty Attrs/Assign on a non-empty table (FirstOr*)."
+	out.Extra["rule"] = "a case is ONE step on a table of 0..n rows over keys 1..4 (+ rowid-assigned keys): Save(v) | Omit(subset of name,age,email,updated_at in column or field spelling).Save(v) on stored, soft-deleted, missing and zero keys with zero-valued fields | Save(&slice of 2-4 values mixing stored keys, fresh keys and zero keys in any order; the slice handed back is compared element by element and is saved again by a later step; RETURNING dialect) | Create+OnConflict{DoNothing, DoUpdates(subset of name,age,email,updated_at,deleted_at), UpdateAll}(v), optionally conditional (OnConflict.Where = stored age < k on DoUpdates/UpdateAll, OnConflict.TargetWhere = age < k; colliding rows on both sides of the condition) | FirstOrInit | FirstOrCreate, preceded by a chain of Where(struct|map|raw 'age > ?') / Attrs / Assign (struct by value or by pointer, map in column or field spelling, key-value; 1-2 arguments) in any order with Session(&Session{}) / WithContext inserted at chain positions; steps are chained into histories of 6..12 steps on the evolving table with soft/hard deletions in between; v is fresh (key 0 or 1..4) or a previously stored row edited. Session/WithContext are inserted at EVERY chain position, also after Attrs/Assign (stream session-after-attrs forces that shape, the fixed finding clone-drops-attrs). Domain: at most one Attrs and one Assign per chain, key-value form alone, two-argument forms in column spelling, Attrs/Assign keys among name/age/email, type-correct values, one inline condition. distinct = distinct (finisher, rule+cols, collision kind, chain form, inline form, RowsAffected, writes, error, table size); non-trivial = the value's key collides with a stored row (Save/upsert) or the chain has a condition and a non-empty Attrs/Assign on a non-empty table (FirstOr*)."
 	lib.Must(out.Flush())
 }
